@@ -371,6 +371,13 @@ func (in *instr) visibleCall(c *ast.CallExpr) string {
 			return "close"
 		}
 	}
+	// len(ch)/cap(ch): a race-free read of shared state without any other visible operation; a goroutine that
+	// decides on it and then acts (check-then-act) must be preemptible between the two
+	if id, ok := c.Fun.(*ast.Ident); ok && (id.Name == "len" || id.Name == "cap") && len(c.Args) == 1 && in.isChan(c.Args[0]) {
+		if _, isB := in.info.Uses[id].(*types.Builtin); isB {
+			return "chanlen"
+		}
+	}
 	m := in.methodOf(c)
 	switch m {
 	case "(*sync.WaitGroup).Wait", "(*sync.WaitGroup).Done", "(*sync.WaitGroup).Go":
@@ -506,7 +513,7 @@ func (in *instr) stmt(s ast.Stmt) []ast.Stmt {
 		if k, pos := in.visibleIn(x); k != "" {
 			// return f(<-c) and friends: the goroutine's next visible operation or its exit follows
 			// anyway; a yield cannot be placed after a return. Only atomics are tolerated here.
-			if k != "atomic" {
+			if k != "atomic" && k != "chanlen" {
 				in.fail(pos, "visible operation ("+k+") inside a return statement")
 			}
 		}
@@ -520,7 +527,7 @@ func (in *instr) stmt(s ast.Stmt) []ast.Stmt {
 			}
 		}
 		if k, pos := in.visibleIn(x.Cond); k != "" {
-			if k == "atomic" {
+			if k == "atomic" || k == "chanlen" {
 				// atomic load in a loop condition: yield at the top of the body and after the loop
 				st := in.site(pos, "atomic")
 				in.block(x.Body)
@@ -545,7 +552,7 @@ func (in *instr) stmt(s ast.Stmt) []ast.Stmt {
 			}
 		}
 		if k, pos := in.visibleIn(x.Tag); k != "" {
-			if k != "atomic" {
+			if k != "atomic" && k != "chanlen" {
 				in.fail(pos, "visible operation ("+k+") in switch tag")
 			}
 		}
@@ -553,7 +560,7 @@ func (in *instr) stmt(s ast.Stmt) []ast.Stmt {
 		for _, cc := range x.Body.List {
 			c := cc.(*ast.CaseClause)
 			for _, e := range c.List {
-				if k, pos := in.visibleIn(e); k != "" && k != "atomic" {
+				if k, pos := in.visibleIn(e); k != "" && k != "atomic" && k != "chanlen" {
 					in.fail(pos, "visible operation in case expression")
 				}
 				in.exprLits(e)
